@@ -29,11 +29,11 @@ PROPS = {
             {"kind": "verus", "unit": "budget"},
             {"kind": "verus", "unit": "seqsearch"},
             {"kind": "verus", "unit": "timeout"},
+            {"kind": "verus", "unit": "depthorder"},
         ],
         "unreached": [
             "the searching builtins other than the scan loops of sequence take_while / skip_until (nth, generator consumers, find ...): that each consumes one permit per element examined",
             "that every route by which library code calls a user function goes through eval_func_with_values (argued from visibility, not proved)",
-            "from_template: that the depth test precedes the evaluation of the declarations (only the height computation and the test itself are under contract)",
         ],
         "assumptions": ["an evaluation performs fewer than 2^64 consecutive tail calls / nested frames (usize counters)",
                         "V-budget: std's repeat_with / take / chain / once, either::Either and Zip by their documented meaning (stream model: length and item at each index); V-seqsearch: iterator model of V-derive, the budget stream restated for finite streams (budget_shape)"],
